@@ -98,6 +98,17 @@ func nativeReplayOpt(P *Program, pkg string, cases []vCase, race bool) ([][]stri
 		}
 		repl[virt] = real
 	}
+	for virt, content := range nativeOnly {
+		real := filepath.Join(tmp, fmt.Sprintf("t%d_test.go", i))
+		i++
+		if err := os.WriteFile(real, content, 0644); err != nil {
+			return nil, err
+		}
+		repl[virt] = real
+	}
+	if extraTest != "" {
+		return runExtraTest(tmp, repl, pkg)
+	}
 	rt, err := os.ReadFile(filepath.Join(verifDir, "harness/common/replay_test.go.txt"))
 	if err != nil {
 		return nil, err
@@ -581,6 +592,29 @@ func replayFile(path string) int {
 	return 0
 }
 
+var extraTest string
+
+// runExtraTest runs a native-only validation test (e.g. the legacy writer models).
+func runExtraTest(tmp string, repl map[string]string, pkg string) ([][]string, error) {
+	ovb, _ := json.Marshal(map[string]interface{}{"Replace": repl})
+	ovPath := filepath.Join(tmp, "overlay.json")
+	os.WriteFile(ovPath, ovb, 0644)
+	cmd := exec.Command("go", "test", "-tags", "verif", "-vet=off", "-count=1", "-v", "-timeout", "20m", "-run", "^"+extraTest+"$", "-overlay", ovPath, "./"+pkg)
+	cmd.Dir = repoDir
+	cmd.Env = append(os.Environ(), "GOFLAGS=-mod=mod", "GOPROXY=off", "GOSUMDB=off", "GOTOOLCHAIN=local")
+	out, err := cmd.CombinedOutput()
+	if err != nil {
+		return nil, fmt.Errorf("%s failed: %s", extraTest, lastLines(string(out), 12))
+	}
+	var lines []string
+	for _, l := range strings.Split(string(out), "\n") {
+		if strings.HasPrefix(l, "VLEGACY") {
+			lines = append(lines, l)
+		}
+	}
+	return [][]string{lines}, nil
+}
+
 // selftest: translator validation on fixed differential harnesses (engine vs native build).
 func selftest() int {
 	noEvidence = true
@@ -588,6 +622,23 @@ func selftest() int {
 	for _, p := range []string{"DBG", "DBG2"} {
 		if c := runProperty(p, "quick", 8); c != 0 {
 			rc = c
+		}
+	}
+	// A-LW: the legacy writer models must reproduce every archived fixture
+	ov, err := buildOverlay()
+	if err != nil {
+		fmt.Println("selftest:", err)
+		return 3
+	}
+	extraTest = "TestVerifLegacyModels"
+	logs, err := nativeReplay(&Program{overlay: ov}, "trie", []vCase{{}})
+	extraTest = ""
+	if err != nil {
+		fmt.Println("selftest: legacy writer models (A-LW) do not validate:", err)
+		rc = 3
+	} else if len(logs) > 0 {
+		for _, l := range logs[0] {
+			fmt.Println(l)
 		}
 	}
 	if rc == 0 {
